@@ -81,6 +81,7 @@ type checkOutcome struct {
 	extra       map[string]any
 	auditObls   int
 	auditFail   []auditFailure
+	auditNames  []string
 }
 
 type auditFailure struct {
@@ -241,6 +242,9 @@ func report(out *checkOutcome, seed int, wall float64, repo string) int {
 	// audit (effect / permission) obligations
 	nObl += out.auditObls
 	nDis += out.auditObls - len(out.auditFail)
+	for _, a := range out.auditNames {
+		seen[a] = true
+	}
 	// drift: baseline obligations that were not generated
 	var missing []string
 	if bl != nil {
@@ -458,8 +462,11 @@ func cmdBaseline(args []string) {
 				}
 			}
 		}
-		out := &checkOutcome{prop: prop, assumptions: map[string]bool{}, extra: map[string]any{}}
+		out := &checkOutcome{prop: prop, assumptions: map[string]bool{}, extra: map[string]any{}, byBackend: map[string]int{}}
 		runAudits(w, cs, mods, prop, out)
+		for _, a := range out.auditNames {
+			bl.Obligations = append(bl.Obligations, a)
+		}
 		sort.Strings(bl.Obligations)
 		b, _ := json.MarshalIndent(bl, "", " ")
 		os.WriteFile(filepath.Join(verifDir(), "baseline", prop+".json"), b, 0o644)
